@@ -16,12 +16,13 @@ THEOREMS = [
     "Gozod.C13.c13_split_partial", "Gozod.C13.c13_split_witnesses", "Gozod.C13.c13_split_full_false",
     "Gozod.C13.c13_parse_partial", "Gozod.C13.c13_parse_witnesses", "Gozod.C13.c13_parse_full_false",
     "Gozod.C13.c13_emit_reads_tagparser", "Gozod.C13.c13_emit_ws_invariant",
-    "Gozod.C13.wellTyped_of_allowed", "Gozod.C13.c13_table_closed", "Gozod.C13.c13_welltyped_partial", "Gozod.C13.c13_illtyped_witnesses",
+    "Gozod.C13.wellTyped_of_allowed", "Gozod.C13.c13_table_closed", "Gozod.C13.c13_table_closed_containers", "Gozod.C13.c13_rows_judged",
+    "Gozod.C13.c13_illtyped_rows_are_open", "Gozod.C13.c13_rows_partial", "Gozod.C13.c13_lazy_self_reference_pinned", "Gozod.C13.c13_welltyped_partial", "Gozod.C13.c13_illtyped_witnesses",
     "Gozod.C13.c13_welltyped_full_false", "Gozod.C13.c13_unused_import_witnesses", "Gozod.C13.c13_emitted_names",
     "Gozod.C13.c13_term_acyclic", "Gozod.C13.c13_term_struct_graphs", "Gozod.C13.c13_term_diverges", "Gozod.C13.c13_term_full_false", "Gozod.C13.convF_mono",
 ]
 W_MODULES = ["Gozod.Proofs.C13W"]
-W_THEOREMS = ["Gozod.C13W.c13_equiv_full_false", "Gozod.C13W.c13_typechecks_full_false", "Gozod.C13W.c13_class_witnesses"]
+W_THEOREMS = ["Gozod.C13W.c13_equiv_full_false", "Gozod.C13W.c13_typechecks_full_false", "Gozod.C13W.c13_class_witnesses", "Gozod.C13W.c13_open_compile_classes_exact"]
 
 GEN_GO = os.path.join(C.HARNESS, "cmd", "c13", "zz_matrix.go")
 GEN_LEAN = os.path.join(C.LEAN, "Gozod", "Gen", "GenTable.lean")
@@ -44,6 +45,8 @@ def lean_call(tok):
     p = tok.split(":")
     if len(p) == 2 and p[0] in ("Min", "Max", "Gt", "Gte", "Lt", "Lte") and re.fullmatch(r"-?\d+", p[1]):
         return ".%s %s" % (p[0].lower(), p[1] if int(p[1]) >= 0 else "(%s)" % p[1])
+    if len(p) == 2 and p[0] == "Length" and re.fullmatch(r"\d+", p[1]): return ".length %s" % p[1]
+    if tok in ("Positive", "Negative", "NonNegative", "NonPositive"): return "." + tok.lower()
     if tok == "Email": return ".email"
     if tok == "URL": return ".url"
     if tok == "Optional": return ".optional"
@@ -54,6 +57,7 @@ def lean_call(tok):
 def lean_ctor(tok):
     if tok in PRIMS: return ".prim"
     if tok == "gozod.UUID()": return ".uuid"
+    if tok == "gozod.URL()": return ".url"
     if tok in ("gozod.FromStruct[Inner]()", "gozod.FromStruct[InnerT]()"): return ".fromStruct"
     return ".other %s" % json.dumps(tok)
 
@@ -90,6 +94,7 @@ def lean_pk(p):
     if p.startswith("basic:"): return ".basic .%s" % p[6:]
     if p == "regexp": return ".regexp"
     if p == "any": return ".any"
+    if p == "schemaOf": return ".schemaOf"
     return ".other"
 
 def lean_methodtable(mt):
@@ -110,10 +115,36 @@ def lean_methodtable(mt):
     L.append("  emittedCtors := [%s]" % ", ".join(q(x) for x in mt["emittedCtors"]))
     L.append("  lazyGetterOK := %s" % b(mt["lazyGetterOK"]))
     L.append("  ctors := [")
-    L.append(",\n".join("    ⟨%s, %d, %s, [%s], %s, %s⟩" % (q(c["name"]), c["typeParams"], b(c["inferable"]), ", ".join(lean_pk(p) for p in c["params"]), b(c["variadic"]), opt(c["result"])) for c in mt["ctors"]))
+    L.append(",\n".join("    ⟨%s, %d, %s, [%s], %s, %s, %s⟩" % (q(c["name"]), c["typeParams"], b(c["inferable"]), ", ".join(lean_pk(p) for p in c["params"]), b(c["variadic"]), opt(c["result"]), q(c.get("out", ""))) for c in mt["ctors"]))
     L.append("  ]")
     L.append("  types := [%s] }" % ", ".join("mty%d" % t["id"] for t in mt["types"]))
     L += ["", "end Gozod.Gen"]
+    return "\n".join(L) + "\n"
+
+WF_LEAN = os.path.join(C.LEAN, "Gozod", "Gen", "WriterFacts.lean")
+WF_FIELDS = ["urlImport", "specialOptNonPtrOnly", "optionalOnEveryPtr", "timePtr", "sliceTyped", "mapKeyMatch", "recordTyped", "urlCtor", "ruleApplies", "boundArg", "extraRules"]
+
+def open_compile_classes():
+    """classes <c> of the lines `open: property=C13 key=wcompile:notypecheck:<c>:*` of known-findings.txt"""
+    cls = []
+    for ent in C.load_known("C13")[0]:
+        m = re.match(r"wcompile:notypecheck:(.*?):\*$", ent["key"])
+        if m and m.group(1) not in cls: cls.append(m.group(1))
+    return cls
+
+def lean_writerfacts(wf, open_classes):
+    """Gen/WriterFacts.lean: which variant of each decision cmd/gozodgen/writer.go contains (go/ast, harness/cmd/c13/facts.go),
+    and the listed does-not-compile classes"""
+    b = lambda x: "true" if x else "false"
+    L = ["-- REGENERATED on every `./check C13` run by vlib/c13.py: structure facts of cmd/gozodgen/writer.go (harness/cmd/c13/facts.go, go/ast)",
+         "-- and the `open:` does-not-compile classes of known-findings.txt. DO NOT EDIT.",
+         "import Gozod.Model.GenEmit", "namespace Gozod.Gen", "open Gozod.GenEmit", "",
+         "def writerFacts : WriterFacts := {"]
+    L += ["  %s := %s" % (f, b(wf[f])) for f in WF_FIELDS]
+    L += ["}", "", "/-- analyzer.go: every name of `F, G string` gets its own key; a tag written as an interpreted string literal is read -/",
+          "def analyzerMultiName : Bool := %s" % b(wf["multiName"]), "def analyzerTagLiteral : Bool := %s" % b(wf["tagLiteral"]), "",
+          "/-- classes `<c>` of the lines `open: property=C13 key=wcompile:notypecheck:<c>:*` of known-findings.txt -/",
+          "def openCompileClasses : List String := [%s]" % ", ".join(json.dumps(c) for c in open_classes), "", "end Gozod.Gen"]
     return "\n".join(L) + "\n"
 
 RULE_ORDER = c06.FORMAT_FIRST
@@ -129,7 +160,7 @@ def char_class(runes):
     names = [n for n, c in (("dquote", 0x22), ("backslash", 0x5C), ("comma", 0x2C), ("space", 0x20), ("squote", 0x27), ("bracket", 0x5B), ("brace", 0x7B), ("percent", 0x25), ("backquote", 0x60)) if c in cs]
     return "+".join(names) or "plain"
 
-CHAIN_RULE = {"Min": "min", "Max": "max", "Gt": "gt", "Gte": "gte", "Lt": "lt", "Lte": "lte", "Email": "email", "URL": "url", "Regex": "regex"}
+CHAIN_RULE = {"Length": "length", "Positive": "positive", "Negative": "negative", "NonNegative": "nonnegative", "NonPositive": "nonpositive", "Min": "min", "Max": "max", "Gt": "gt", "Gte": "gte", "Lt": "lt", "Lte": "lte", "Email": "email", "URL": "url", "Regex": "regex"}
 
 def compile_cause(comment):
     m = re.search(r'err="((?:[^"\\]|\\.)*)"', comment)
@@ -140,6 +171,21 @@ def compile_cause(comment):
     if "gozod.Record" in msg: return "record-arguments"
     if "overflows" in msg and "int64" in msg: return "bound-overflows-int64"
     return "other:" + re.sub(r"[^A-Za-z0-9]+", "_", msg)[:40]
+
+def wcompile_class(cm):
+    """class of a type-check failure, read off the compiler's first message — the names GenTyped.whyChain gives"""
+    if re.search(r"ZodEnum\[string, string\] has no field or method \w+\)", cm): return "enum+method"
+    if "imported and not used" in cm: return "unused-import"
+    if "as gozod.ZodType[any] value in return statement" in cm: return "lazy-self-reference"
+    if "undefined: time" in cm: return "time-not-imported"
+    if "cannot infer T" in cm: return "slice-cannot-infer-T"
+    if "not enough arguments in call to gozod.Record" in cm: return "record-arguments"
+    if "cannot infer" in cm and "gozod.Enum" in cm: return "enum-without-member"
+    m = re.search(r"\(type \*types\.(Zod\w+)\[.*has no field or method (\w+)\)", cm)
+    if m: return "no-method:%s.%s" % (m.group(1), m.group(2))
+    if re.search(r"untyped float constant|truncated", cm): return "constant-not-representable:float-as-integer"
+    if re.search(r"untyped int constant|overflows", cm): return "constant-not-representable:overflows-int64"
+    return None
 
 def dec_runes(r):
     if r in ("-", "~", ""): return ""
@@ -243,24 +289,38 @@ def make_key(doc, reasons=None, unexplained=()):
             ns = t[3].split("+")
             cause = "other"
             cm = C.op_comment(op)
-            if im == "notypecheck" and re.search(r"ZodEnum\[string, string\] has no field or method (Min|Max|Regex|Email|Gt|Gte|Lt|Lte)\)", cm):
+            cls = wcompile_class(cm) if im == "notypecheck" else None
+            if cls == "enum+method":
                 cause = "enum+method"      # gozod.Enum(…).Min(1): ZodEnum has no such method
             elif "enum" in ns and re.search(r'["\\]', dec_runes(t[4])): cause = "enum-literal"
-            elif im == "notypecheck":
+            elif cls is not None:
                 # round 4 (field types beyond string/int/int64/float64): the class is read off the compiler's first message
                 fty = re.sub(r"\bS\d+\b", "SELF", t[2])
-                m = re.search(r"\(type \*types\.(Zod\w+)\[.*has no field or method (\w+)\)", cm)
-                if "as gozod.ZodType[any] value in return statement" in cm: return "wcompile:notypecheck:lazy-self-reference:fty=" + fty
-                if "undefined: time" in cm: return "wcompile:notypecheck:time-not-imported:fty=" + fty
-                if "cannot infer T" in cm: return "wcompile:notypecheck:slice-cannot-infer-T:fty=" + fty
-                if "not enough arguments in call to gozod.Record" in cm: return "wcompile:notypecheck:record-arguments:fty=" + fty
-                if "cannot infer" in cm and "gozod.Enum" in cm: return "wcompile:notypecheck:enum-without-member:fty=" + fty
-                if m: return "wcompile:notypecheck:no-method:%s.%s:fty=%s" % (m.group(1), m.group(2), fty)
-                if re.search(r"untyped float constant|truncated", cm): return "wcompile:notypecheck:constant-not-representable:float-as-integer:fty=%s,rules=%s" % (fty, t[3])
-                if re.search(r"untyped int constant|overflows", cm): return "wcompile:notypecheck:constant-not-representable:overflows-int64:fty=%s,rules=%s" % (fty, t[3])
-                if "imported and not used" in cm: return "wcompile:notypecheck:unused-import:rules=" + t[3]
+                if cls.startswith("constant-not-representable:"): return "wcompile:notypecheck:%s:fty=%s,rules=%s" % (cls, fty, t[3])
+                if cls == "unused-import": return "wcompile:notypecheck:unused-import:rules=" + t[3]
+                return "wcompile:notypecheck:%s:fty=%s" % (cls, fty)
+            if cause == "other" and im != "ok" and re.search(r"(^|[,\s])(default|prefault)=", dec_runes(t[4])):
+                # a slice field whose default= is not a JSON array / a map field whose default= is not a JSON object:
+                # generateSliceValue / generateMapValue write the parameter verbatim
+                val = re.search(r"(?:default|prefault)=(.)", dec_runes(t[4])).group(1)
+                base = t[2].lstrip("*")
+                if (base.startswith("[]") and val != "[") or (base.startswith("map[") and val != "{"):
+                    return "wcompile:default-not-json-of-kind:%s:fty=%s,rules=%s" % (im, t[2], t[3])
+                if base.startswith("[]") and base[2:] not in ("string", "int", "float64", "bool"):
+                    # generateSliceValue builds a Go literal for element kinds string / int / float64 / bool only;
+                    # for every other element type the JSON text is written verbatim
+                    return "wcompile:json-default-elem-kind:%s:fty=%s,rules=%s" % (im, t[2], t[3])
+            why = (reasons or {}).get(C.op_body(op), "none")
+            if cause == "other" and im != "ok" and why not in ("none", "?"):
+                # outside parseRegion: gozodgen's own tag parser read other rules than pkg/tagparser (a listed gentag:* class);
+                # what it then wrote (a pattern that does not compile, a literal that does not parse) follows from that
+                return "wcompile:parse:%s:%s:fty=%s,rules=%s" % (why, im, t[2], t[3])
             return "wcompile:%s:%s:fty=%s,rules=%s" % (im, cause, t[2], t[3])
         if kind in ("wsame", "wbuild"): return "%s:%s" % (kind, im)
+        if kind == "mname":
+            ks = im.split(" ")[0][5:].split(",")
+            return "mname:" + ("duplicate-key" if len(set(ks)) < len(ks) else "other")
+        if kind == "bfile": return "bfile:%s:%s" % (im, t[2])
         if kind == "wexpr": return "wexpr:model-mismatch"
         if kind == "texpr": return "texpr:model-mismatch:" + ("status" if im.split(" ")[0] != M.split(" ")[0] else "text")
         if kind == "wcell": return wide_key(t, im, (reasons or {}).get(C.op_body(op), "?"), unexplained)
@@ -276,6 +336,8 @@ def make_key(doc, reasons=None, unexplained=()):
                 return "ref-wrong:rule=%s,fty=%s" % (rn, fty)
             emitted = set(CHAIN_RULE.get(c.split(":")[0], c.split(":")[0]) for c in chain[1:])
             if chain[0] == "gozod.UUID()": emitted.add("uuid")
+            if chain[0] == "gozod.URL()": emitted.add("url")
+            if "Min:1" in chain[1:]: emitted.add("nonempty")      # `nonempty` is written .Min(1)
             who = "gen-wrong" if r == d else "both-wrong"
             if probe == "nil" and fty.startswith("ptr_") and "required" in names and ("Optional" in emitted or "Nilable" in emitted):
                 return "gen-optional-on-required:fty=%s" % fty
@@ -298,6 +360,10 @@ def describe(op):
         return "type <Struct> struct { F <type> `gozod:\"<tag>\"` } (in the op comment); gozodgen on it; st = go/parser + `go build -gcflags=-e` on the written file, expr = the text written for field F; model: GenEmit.emitChain rendered, GenTyped.wellTyped against the regenerated Gen.methodTable"
     if t[1] in ("wcompile", "wexpr", "wsame", "wcell", "wbuild"):
         return "the struct field in the op comment (`<Struct>.<Field> <type> <tag>`), declared in a package of several files / many structs / many fields in which the same tag text occurs on several fields; gozodgen on the package; g = Struct{}.Schema().Parse(v) accepts field=<probe>, r = gozod.FromStruct[Struct]().Parse(v) does; wsame: the field's emitted expression vs the one emitted when the field is alone in a struct"
+    if t[1] == "mname":
+        return "type M struct { <names> <type> `gozod:\"<tag>\"` } (one field declaration with several names; in the op comment); gozodgen; keys = the keys of the generated StructSchema literal in the order written, st = go/parser + `go build -gcflags=-e` of the generated file"
+    if t[1] == "bfile":
+        return "a package main of two files: main.go (func main, struct Base) and the file named in the op comment declaring the tagged struct Extra; gozodgen on the directory; then `go build` and `go vet` of the package"
     if t[1] == "quote":
         return "type Q struct{ F *string `gozod:\"<tag in comment>\"` }; gozodgen; the string literal in the emitted .Default(\"…\") / regexp.MustCompile(\"…\") vs the parameter tagparser hands to FromStruct"
     return ""
@@ -430,6 +496,13 @@ def _run(res):
             res.notes.append("Gen/MethodTable.lean changed and was rewritten")
     except (OSError, ValueError, KeyError) as e:
         C.tie_broken(res, "translator C13/MethodTable", str(e)); return res.finish()
+    try:
+        wfacts = json.load(open(os.path.join(rundir, "writerfacts.json")))
+        if c06.write_if_changed(WF_LEAN, lean_writerfacts(wfacts, open_compile_classes())):
+            res.notes.append("Gen/WriterFacts.lean changed and was rewritten")
+        res.notes.append("writer facts (go/ast over cmd/gozodgen): " + ", ".join("%s=%s" % (k, "1" if v else "0") for k, v in sorted(wfacts.items())))
+    except (OSError, ValueError, KeyError) as e:
+        C.tie_broken(res, "translator C13/WriterFacts", str(e)); return res.finish()
     # 3. proofs
     ok, detail = C.prove(res, MODULES, THEOREMS)
     _ph('prove')
@@ -444,12 +517,17 @@ def _run(res):
         C.tie_broken(res, "correspondence C13/driver", "driver rc=%s lines=%d ops=%d\n%s" % (rc, len(model), len(ops), detail)); return res.finish()
     # 4. compose model / spec columns
     doc, reasons, unmodelled, unexplained, tunmod = {}, {}, 0, set(), 0
+    tcls, tcls_diff = {True: 0, False: 0}, []
     for i, o in enumerate(ops):
         t = C.op_body(o).split(" ")
         if t[1] == "split":
             p = model[i].split("\t")
             if len(p) == 3:
                 reasons[C.op_body(o)] = p[2]; model[i] = p[0] + "\t" + p[1]
+        elif t[1] == "wcompile":
+            p3 = model[i].split("\t")
+            if len(p3) == 3:
+                reasons[C.op_body(o)] = p3[2]; model[i] = p3[0] + "\t" + p3[1]
         elif t[1] == "wexpr":
             m = model[i]
             if m == "?": unmodelled += 1; m = impl[i]     # outside the modelled fragment (strconv.Quote of a rune not modelled)
@@ -458,8 +536,14 @@ def _run(res):
         elif t[1] == "texpr":
             # model-vs-implementation only (the statement "type-checks" is judged on the compile / wcompile op of the same struct):
             # emitted text = GenEmit.emitChain rendered, compile status = GenTyped.wellTyped against Gen.methodTable + importsUsed
-            m = model[i]
+            m, _, mcls = model[i].partition("\t")
             ist, iex = impl[i].split(" ")
+            if ist == "st=notypecheck" and mcls not in ("", "?"):
+                # the REASON the typing judgement gives (GenTyped.whyChain) against the class read off the compiler's message
+                icls = wcompile_class(C.op_comment(o))
+                if icls is not None:
+                    tcls[icls == mcls] += 1
+                    if icls != mcls and len(tcls_diff) < 5: tcls_diff.append("%s: compiler %s, model %s" % (C.op_comment(o).split(" -> ")[0].strip(), icls, mcls))
             if m == "?": tunmod += 1; m = impl[i]
             else:
                 mst, mex = m.split(" ")
@@ -488,6 +572,8 @@ def _run(res):
                 model[i] = m + "\t" + spec
     C.decide(res, "C13", (ops, impl, model, stats), make_key(doc, reasons, unexplained), "C13/translation-validation", describe=describe)
     _ph('decide')
+    res.notes.append("texpr files that do not type-check: the model's reason (GenTyped.whyChain) equals the class of the compiler's first message on %d, differs on %d%s" % (
+        tcls[True], tcls[False], (" — " + "; ".join(tcls_diff)) if tcls_diff else ""))
     if tunmod: res.notes.append("%d texpr cases outside the judged fragment (an argument that is not a literal, a tag gozodgen refuses, a file that does not parse)" % tunmod)
     if unmodelled: res.notes.append("%d emitted expressions outside the modelled fragment of strconv.Quote" % unmodelled)
     if not ok and not res.violations:
